@@ -17,6 +17,7 @@ mod jsonval;
 mod models;
 mod rng;
 mod sched;
+mod shimtest;
 mod simrt;
 
 use crate::core::{Sim, Tier};
@@ -191,8 +192,17 @@ fn real_main(args: &[String]) -> i32 {
             2
           }
         }
+        "shim" => {
+          driver::install_panic_hook();
+          let n = arg_value(args, "--runs").and_then(|s| s.parse().ok()).unwrap_or(300u64);
+          if shimtest::run(n) == 0 {
+            0
+          } else {
+            2
+          }
+        }
         _ => {
-          eprintln!("dmnsim selftest determinism [ID...] [--runs N]");
+          eprintln!("dmnsim selftest determinism [ID...] [--runs N] | shim [--runs N]");
           2
         }
       }
